@@ -64,6 +64,116 @@ func isFresh(x any) bool { panic("spec only") }
 // ghostAssert(b) raises a proof obligation from ghost code.
 func ghostAssert(b bool) {}
 
+// ghostAssume(b, why) records an explicit assumption (listed in the evidence).
+func ghostAssume(b bool, why string) {}
+
+// ghostProtect(s): elements of s are private to this frame. ghostProtectFields(p, names...): so are these fields of *p.
+func ghostProtect(s any)                          {}
+func ghostProtectFields(p any, fields ...string) {}
+
+// atLoopEntry(x): the value of x when the innermost loop was entered.
+func atLoopEntry[T any](x T) T { return x }
+
+// ---- data-structure invariants ----
+
+// wfValue: the type tag of a VMValue determines the dynamic type of its payload (and the payload is non-nil).
+func wfValue(v *VMValue) bool {
+	switch v.TypeId {
+	case VMTypeInt:
+		_, ok := v.Value.(IntType)
+		return ok
+	case VMTypeFloat:
+		_, ok := v.Value.(float64)
+		return ok
+	case VMTypeString:
+		_, ok := v.Value.(string)
+		return ok
+	case VMTypeComputedValue:
+		x, ok := v.Value.(*ComputedData)
+		return ok && x != nil
+	case VMTypeArray:
+		x, ok := v.Value.(*ArrayData)
+		return ok && x != nil
+	case VMTypeDict:
+		x, ok := v.Value.(*DictData)
+		return ok && x != nil && x.Dict != nil
+	case VMTypeFunction:
+		x, ok := v.Value.(*FunctionData)
+		return ok && x != nil
+	case VMTypeNativeFunction:
+		x, ok := v.Value.(*NativeFunctionData)
+		return ok && x != nil && x.NativeFunc != nil
+	case VMTypeNativeObject:
+		x, ok := v.Value.(*NativeObjectData)
+		return ok && x != nil
+	}
+	return true
+}
+
+// wfInstr: instruction k of a code buffer of n instructions carries the operand its opcode needs
+// (the interface between the compiler and the VM; established on the compiler side, see C08).
+func wfInstr(c *ByteCode, k, n int) bool {
+	switch c.T {
+	case typePushIntNumber:
+		_, ok := c.Value.(IntType)
+		return ok
+	case typePushFloatNumber:
+		_, ok := c.Value.(float64)
+		return ok
+	case typePushString, typeLoadName, typeLoadNameRaw, typeLoadNameWithDetail, typeStoreName, typeAttrGet, typeAttrSet:
+		_, ok := c.Value.(string)
+		return ok
+	case typePushArray, typePushDict, typeInvoke, typeLoadFormatString, typePopN:
+		x, ok := c.Value.(IntType)
+		return ok && x >= 0 && x <= 100000
+	case typePushComputed, typePushFunction:
+		x, ok := c.Value.(*VMValue)
+		return ok && x != nil
+	case typeJe, typeJeDup, typeJne, typeJmp:
+		x, ok := c.Value.(IntType)
+		return ok && 0 <= IntType(k)+1+x && IntType(k)+1+x <= IntType(n)
+	case typeDetailMark:
+		_, ok := c.Value.(BufferSpan)
+		return ok
+	case typeStModify:
+		_, ok := c.Value.(StInfo)
+		return ok
+	case typeCustomDice:
+		x, ok := c.Value.(*customDiceCompiled)
+		return ok && x != nil && x.item != nil && x.item.fn != nil
+	}
+	return true
+}
+
+// specPops: operand-stack height instruction c needs (the stack-effect table of C08, VM side).
+func specPops(c *ByteCode) IntType {
+	switch c.T {
+	case typePushArray, typePopN:
+		return c.Value.(IntType)
+	case typePushDict:
+		return 2 * c.Value.(IntType)
+	case typeInvoke:
+		return c.Value.(IntType) + 1
+	case typePushRange, typeLogicAnd, typeItemGet, typeAttrSet, typeStSetName, typeStModify, typeStX0,
+		typeAdd, typeSubtract, typeMultiply, typeDivide, typeModulus, typeExponentiation, typeNullCoalescing,
+		typeCompLT, typeCompLE, typeCompEQ, typeCompNE, typeCompGE, typeCompGT, typeBitwiseAnd, typeBitwiseOr:
+		return 2
+	case typeItemSet, typeStX1:
+		return 3
+	case typeSliceGet:
+		return 4
+	case typeSliceSet:
+		return 5
+	case typeAttrGet, typeStoreName, typeJe, typeJeDup, typeJne, typePop, typePositive, typeNegation,
+		typeDiceSetTimes, typeDiceSetKeepLowNum, typeDiceSetKeepHighNum, typeDiceSetDropLowNum, typeDiceSetDropHighNum,
+		typeDiceSetMin, typeDiceSetMax, typeDice, typeDiceCocBonus, typeDiceCocPenalty,
+		typeWodSetPoints, typeWodSetThreshold, typeWodSetThresholdQ, typeWodSetPool, typeDiceWod,
+		typeDCSetPool, typeDCSetPoints, typeDiceDC:
+		return 1
+	}
+	return 0
+}
+
 // ---- lemma functions: the contract is proved from the empty body; ghost code calls them ----
 
 // for 0 <= a <= t the product a*h lies between 0 and t*h
@@ -510,6 +620,157 @@ func (*ParserData).BreakSet
   loop 1
     invariant forall j in [0, rangeIdx): p.code[p.breakStack[p.loopInfo[len(p.loopInfo)-1].breakIndex + j]].Value.(IntType) == IntType(p.codeIndex) - p.breakStack[p.loopInfo[len(p.loopInfo)-1].breakIndex + j] - 1
   ensures [C02] p.breakStack != nil ==> forall k in [p.loopInfo[len(p.loopInfo)-1].breakIndex, len(p.breakStack)): p.breakStack[k] + 1 + p.code[p.breakStack[k]].Value.(IntType) == IntType(p.codeIndex)
+
+// ---- rollvm.go: the VM ----
+
+typeinv v *VMValue : wfValue(v)
+
+// ---- small constructors and accessors: callers execute the body (inline) ----
+
+func NewIntVal
+  props C01 C02 C10
+  inline
+
+func NewFloatVal
+  props C01 C02 C10
+  inline
+
+func NewStrVal
+  props C01 C02 C10
+  inline
+
+func NewNullVal
+  props C01 C02 C10
+  inline
+
+func vmValueNewLocal
+  props C01 C02 C10
+  inline
+
+func NewArrayVal
+  props C01 C02 C10
+  inline
+
+func NewArrayValRaw
+  props C01 C02 C10
+  inline
+
+func NewDictVal
+  props C01 C02 C10
+  inline
+
+func NewComputedValRaw
+  props C01 C02 C10
+  inline
+
+func NewComputedVal
+  props C01 C02 C10
+  inline
+
+func NewFunctionValRaw
+  props C01 C02 C10
+  inline
+
+func NewNativeFunctionVal
+  props C01 C02 C10
+  inline
+
+func NewNativeObjectVal
+  props C01 C02 C10
+  inline
+
+func boolToVMValue
+  props C01 C02 C10
+  inline
+
+func (*VMValue).Clone
+  props C01 C02 C10
+  inline
+
+func (*VMValue).ReadInt
+  props C01 C02 C10
+  inline
+
+func (*VMValue).ReadFloat
+  props C01 C02 C10
+  inline
+
+func (*VMValue).ReadString
+  props C01 C02 C10
+  inline
+
+func (*VMValue).ReadArray
+  props C01 C02 C10
+  inline
+
+func (*VMValue).ReadComputed
+  props C01 C02 C10
+  inline
+
+func (*VMValue).ReadDictData
+  props C01 C02 C10
+  inline
+
+func (*VMValue).ReadFunctionData
+  props C01 C02 C10
+  inline
+
+func (*VMValue).ReadNativeFunctionData
+  props C01 C02 C10
+  inline
+
+func (*VMValue).ReadNativeObjectData
+  props C01 C02 C10
+  inline
+
+func (*VMValue).MustReadInt
+  props C01 C02 C10
+  inline
+
+func (*VMValue).MustReadFloat
+  props C01 C02 C10
+  inline
+
+func (*VMValue).MustReadArray
+  props C01 C02 C10
+  inline
+
+func (*VMValue).MustReadDictData
+  props C01 C02 C10
+  inline
+
+func (*VMDictValue).V
+  props C01 C02 C10
+  inline
+
+
+func (*Context).evaluate
+  props C01 C04 C07 C13 C17 C18
+  requires ctx != nil
+  requires 0 <= ctx.codeIndex && ctx.codeIndex <= len(ctx.code)
+  requires forall k in [0, ctx.codeIndex): wfInstr(&ctx.code[k], k, ctx.codeIndex)
+  loop 1
+    invariant 0 <= i && i <= num && len(data) == int(i) && e.top == atLoopEntry(e.top) - int(i)
+    invariant forall k in [0, len(data)): data[k] != nil
+    invariant e == ctx && len(stack) == 1000 && 0 <= e.top && e.top <= 1000 && len(e.stack) == 1000 && &e.stack[0] == &stack[0]
+    invariant forall j in [0, e.top): wfValue(&stack[j])
+    invariant lastPop == nil || wfValue(lastPop)
+    invariant isFresh(data)
+    decreases int(num - i)
+  loop 2
+    invariant 0 <= i && j == len(data)-1-i && i <= len(data)
+    invariant forall k in [0, len(data)): data[k] != nil
+    decreases j - i + 1
+  loop 3
+    invariant e == ctx && len(stack) == 1000 && 0 <= e.top && e.top <= 1000
+    invariant len(e.stack) == 1000 && &e.stack[0] == &stack[0]
+    invariant 0 <= opIndex
+    invariant e.codeIndex == old(e.codeIndex) && len(e.code) == old(len(e.code)) && e.codeIndex <= len(e.code)
+    invariant forall k in [0, e.codeIndex): wfInstr(&e.code[k], k, e.codeIndex)
+    invariant forall i in [0, e.top): wfValue(&stack[i])
+    invariant lastPop == nil || wfValue(lastPop)
+  ghost at loop 3 begin: ghostProtect(stack); ghostProtectFields(ctx, "code", "codeIndex", "stack", "top")
+  ghost at loop 3 begin: ghostAssume(IntType(e.top) >= specPops(&e.code[opIndex]), "bytecode passes the stack-height typing of C08 (operand stack holds the operands of the current instruction)")
 
 // ---- lemmas (raw SMT-LIB, proved on every run; expected answer: unsat) ----
 
